@@ -9,8 +9,9 @@
    Marked pointers, CAS retries and node reclamation do not occur on one task and are not
    modelled (a CAS on one task always succeeds).  One unreachable branch is NOT faithful:
    when the node a bucket points at already has so_key >= the searched key the code would CAS
-   the bucket slot itself; Proofs.v shows the offset returned by [find_from] is never 0 in a
-   reachable state ([find_from_not_head]). *)
+   the bucket slot itself; Refine.v shows that [find_from] never stops at the bucket's own
+   node when so_dummykey(bucket) < searched key ([find_from_not_head], Properties: bucket_slot_never_cas),
+   which [bucket_before_keys] / [parent_before_child] give for every call the code makes. *)
 From Coq Require Import List NArith Bool.
 Import ListNotations.
 Local Open Scope N_scope.
